@@ -186,7 +186,50 @@ def check_C03(chk):
                         'a real run that does not return within HARNESS_TIMEOUT seconds while the specification is definite counts as a violation (hang)']
 
 
-CHECKS = {'C01': check_C01, 'C02': check_C02, 'C03': check_C03}
+def vals_cfg(suite, size, invariants=('WellFormed',)):
+    inv = ''.join(f'INVARIANT {i}\n' for i in invariants)
+    return f'SPECIFICATION Spec\nCONSTANTS\n  Suite = "{suite}"\n  Size = {size}\n{inv}CHECK_DEADLOCK FALSE\n'
+
+
+def check_C10(chk):
+    q = chk.tier == 'quick'
+    chk.rule = ('TLC enumerates containers (all arrays over {0,1}, all text strings over {a, a-umlaut, euro, emoji, invalid byte 0xff}, byte strings, '
+                'small objects with string and non-string keys, null, a number) x positions/bounds in -5..5 and null x wrongly typed positions x '
+                'operations (.[i], .[i]?, has, nth, .[i:], .[:j], .[i:j], .[{start,end}], length, keys, .[], first/last, array patterns, path(..), '
+                '.[i] |= u, .[i:j] |= u, .[] |= u, =, +=, del with u yielding 0/1/2 outputs, a wrong kind, an error); the expected result comes from '
+                'the position model of JaqValues/JaqSem, whose internal consistency (HasIffInside, SliceIsSubSeq) TLC checks as invariants; '
+                'every state is replayed on the real code. non-trivial = expectation is a value or an error (all cases); distinct = (operation, values).')
+    n = 2 if q else 3
+    run_suite(chk, 'read', 'MC_Vals', vals_cfg('pos-read', n, ('WellFormed', 'NoUnsup', 'HasIffInside')))
+    run_suite(chk, 'slice', 'MC_Vals', vals_cfg('pos-slice', n, ('WellFormed', 'NoUnsup', 'SliceIsSubSeq')))
+    run_suite(chk, 'upd', 'MC_Vals', vals_cfg('pos-upd', n, ('WellFormed', 'NoUnsup')))
+    run_suite(chk, 'updslice', 'MC_Vals', vals_cfg('pos-updslice', 2 if q else 3, ('WellFormed', 'NoUnsup')))
+    chk.extra['exhaustive'] = True
+    chk.assumptions += ['big-integer positions are covered by C09; key order after deleting updates is left open']
+
+
+def eq_cfg(group, maxn):
+    return f'SPECIFICATION Spec\nCONSTANTS\n  Group = "{group}"\n  MaxN = {maxn}\nINVARIANT Holds\nINVARIANT Supported\nCHECK_DEADLOCK FALSE\n'
+
+
+def check_C11(chk):
+    q = chk.tier == 'quick'
+    chk.rule = ('one obligation per defining equation of the manual (limit/skip, first, last, nth, isempty, any/all, add, select, error, '
+                'limit as foreach+label, reduce/foreach = nested-pipe expansion with updates yielding 0/1/2 outputs or errors, range/1,2,3 = its '
+                'while definition for numbers, strings, null, repeat, recurse/0,1,2, .., while, until, empty); TLC instantiates each with every argument '
+                'stream of the family eqf (finite streams with errors at every position, multiplicities, empties) x counts -2..4 x inputs and checks '
+                'lhs = rhs on the specification (invariant Holds); both sides of every instance are replayed on the real code, each against its expectation.')
+    n = 3 if q else 5
+    run_suite(chk, 'stream', 'MC_Eq', eq_cfg('stream', n))
+    run_suite(chk, 'fold', 'MC_Eq', eq_cfg('fold', n))
+    run_suite(chk, 'gen', 'MC_Eq', eq_cfg('gen', n))
+    # the same argument streams under the bare combinators, exhaustively (value mode)
+    run_suite(chk, 'streams', 'MC_Sem', mc_cfg('streams', 3 if q else 4, ['run'], 7))
+    chk.extra['exhaustive'] = True
+    chk.assumptions += ['counts beyond 2^31 (big integers) are covered by C09']
+
+
+CHECKS = {'C11': check_C11, 'C10': check_C10, 'C01': check_C01, 'C02': check_C02, 'C03': check_C03}
 
 
 def main():
